@@ -174,6 +174,61 @@ def training_case(case):
             "sample": {"config": where, "permutation": perm, "batches": [b["idx"] for b in batches]}}
 
 
+def history_case(case):
+    """The constraint term is there in EVERY training run of a decorated object: second and third fit of the same object, fit after a
+    predict / score, and the training loop of path() (initial fit and every path step).  Observed with a class-level spy on _compute_grads
+    (what enters back-propagation), so that nothing depends on attributes stored on the instance."""
+    family, factor, bs, gemini, history, seed = case
+    from gemclus import add_mlcl_constraint
+    ML5, CL5 = CONSTRAINT_SETS["A"]
+    n = 5
+    X = seams.tiny_data(n, 2, seed + 5)
+    kw = dict(n_clusters=3, max_iter=2, gemini=gemini, random_state=2, learning_rate=0.2)
+    if family != "CategoricalModel":
+        kw["batch_size"] = bs
+    if family in M.SPARSE:
+        kw["alpha"] = 0.05
+    model = M.make(family, **kw)
+    klass = type(model)
+    real = klass._compute_grads
+    seen = []
+
+    def cls_spy(self, Xb, y_pred, gradient):
+        seen.append((seams.match_rows(Xb, X) if np.shape(Xb)[1:] == X.shape[1:] else list(range(n)), np.array(y_pred, copy=True), np.array(gradient, copy=True), len(marks)))
+        return real(self, Xb, y_pred, gradient)
+    marks = []
+    klass._compute_grads = cls_spy
+    where = dict(family=family, factor=factor, batch_size=bs, gemini=gemini, history="+".join(history))
+    try:
+        model = add_mlcl_constraint(model, ML5, CL5, factor)
+        for ev in history:
+            marks.append(ev)
+            if ev == "fit":
+                model.fit(X)
+            elif ev == "query":
+                model.predict(X)
+                model.score(X)
+            elif ev == "path":
+                model.path(X, alpha_multiplier=3.0, min_features=1, max_patience=1)
+    finally:
+        klass._compute_grads = real
+    gem = model.get_gemini()
+    Afull = gem.compute_affinity(X)
+    v, touched = [], 0
+    for idx, P, g_in, stage in seen:
+        A = None if Afull is None else np.asarray(Afull)[np.ix_(idx, idx)]
+        _, g0 = gem(P.copy(), A, return_grad=True)
+        T = ref.constraint_term(P, idx, ML5, CL5, factor)
+        touched += bool(np.abs(T).max() > 0)
+        if not np.allclose(g_in, np.asarray(g0, dtype=float) + T, rtol=1e-10, atol=1e-12):
+            v.append(violation("constraint_gradient_wrong", {"during": f"call {stage} of the history ({history[stage - 1]})", "batch_samples": idx,
+                                                             "got_minus_gemini": g_in - g0, "expected_term": T}, stage=history[stage - 1], **where))
+            break
+    return {"v": v, "nt": [case] if touched else [], "stats": {"evals": len(seen), "traces": 1, "transitions": len(seen), "states": len(seen),
+                                                               "batches_with_active_constraint": touched},
+            "sample": {"config": where}}
+
+
 def explorers(tier, seed):
     thorough = tier == "thorough"
     c1 = [(s, m, c) for s in range(3) for m in range(64) for c in ("list", "array")]
@@ -193,7 +248,17 @@ def explorers(tier, seed):
                         c3.append((family, factor, bs, None, gemini, seed, cs))
                         for p in (perms if thorough else perms[::6]):
                             c3.append((family, factor, bs, p, gemini, seed, cs))
+    c4 = []
+    for family in TRAIN_MODELS + ["SparseMLPModel"]:
+        for gemini in ("mmd_ova", "mi"):
+            for bs in ([None] if family == "CategoricalModel" else [2, None]):
+                hists = [("fit", "fit"), ("fit", "query", "fit"), ("fit", "fit", "fit")] + ([("path",), ("fit", "path"), ("path", "fit")] if family in M.SPARSE else [])
+                for h in hists:
+                    c4.append((family, 3.0, bs, gemini, h, seed))
     return [
+        Explorer("training_histories", "props.c14", "history_case", c4, kind="choices", chunk=4, floor=30,
+                 rule="decorated models trained repeatedly: fit;fit, fit;predict+score;fit, fit;fit;fit and (sparse) path, fit;path, path;fit - the gradient entering "
+                      "back-propagation in EVERY call of EVERY training run is the GEMINI gradient plus the constraint term (class-level spy)"),
         Explorer("validation_all_pair_sets", "props.c14", "validation_block", c1, chunk=8, floor=1000,
                  rule="ALL subsets of the 6 pairs over 4 indices as must-link x ALL subsets as cannot-link, index sets "
                       f"{INDEX_SETS}, list-of-tuples and ndarray, mixed orientations; non-trivial = both sets non-empty; "
